@@ -32,10 +32,12 @@ def cell_tree_t(c):
 ALIAS = {
     'seq_no': ['seq_no', 'seqno'], 'rest': [''], 'a': [''], 'b': [''], 'state_init': ['state_init', ''],
     'storage_ph': ['storage_ph', 'storage'], 'credit_ph': ['credit_ph', 'credit'], 'compute_ph': ['compute_ph', 'compute'],
-    'cc': [''], 'r1': [''], 'prev': ['prev', ''], 'master': ['master', ''], 'blk_ref': ['blk_ref', ''], 'vert_seq_no': ['vert_seq_no', 'vert_seqno'],
+    'cc': [''], 'r1': [''], 'shard_fees_extra': [''], 'prev': ['prev', ''], 'master': ['master', ''], 'blk_ref': ['blk_ref', ''], 'vert_seq_no': ['vert_seq_no', 'vert_seqno'],
 }
 # schema fields the library reads but does not expose (nothing to compare)
 UNEXPOSED = {('CatchainConfig', 'flags')}
+# ... and whole sub-values it skips over: every leaf below such a path element
+UNEXPOSED_BELOW = {'shard_fees_extra'}
 
 
 def get_attr(cur, name):
@@ -58,6 +60,8 @@ def norm(kind, expected, val):
     if kind == 'Count':
         if val is None:
             return {'count': 0}
+        if isinstance(getattr(val, 'list', None), list):
+            val = val.list
         try:
             return {'count': len(val)}
         except TypeError:
@@ -119,6 +123,8 @@ def _dict_of(cur):
     if isinstance(cur, tuple) and len(cur) == 2 and isinstance(cur[0], dict):
         return cur[0], True
     d = getattr(cur, 'dict', cur)
+    if d is cur and isinstance(getattr(cur, 'list', None), list):
+        d = cur.list                              # BinTree: the list of its leaves
     if d is None:
         return {}, True
     if isinstance(d, list):
@@ -138,7 +144,8 @@ def walk(obj, path, cursors, ty=None):
                 d, keyed = _dict_of(cur)
                 if not isinstance(d, dict):
                     return False, None
-                cursors[pre] = [d, sorted(d), -1, keyed]
+                # ascending order of the key BIT STRINGS: signed keys (config parameter ids) sort their negatives last
+                cursors[pre] = [d, sorted(d, key=lambda z: z if not isinstance(z, int) or z >= 0 else z + (1 << 300)), -1, keyed]
             c = cursors[pre]
             if name == '#key' and i == len(path) - 1:
                 c[2] += 1
@@ -170,7 +177,7 @@ def observe(obj, flat, ty=None):
     cursors = {}             # path prefix -> [dict, sorted keys, index, keys observable]
     for leaf in flat:
         path, kind = leaf['path'], leaf['k']
-        if (ty, path[-1] if path else '') in UNEXPOSED:
+        if (ty, path[-1] if path else '') in UNEXPOSED or any(x in UNEXPOSED_BELOW for x in path):
             out.append({'skip': 1})
             continue
         ok, cur = walk(obj, path, cursors, ty)
